@@ -676,7 +676,9 @@ fn spawn_doc(trivia: &Trivia, func: &Term) -> Doc {
                 Some(body) => pretty::concat(vec![pretty::text(head), block_doc(trivia, body)]),
             }
         }
-        other => pretty::text(format!("@{}", render_term_atom(other))),
+        // Any other primary can be spawned (`@f`, `@~`, but also `@[f, x]`, `@"s"`, `@@f`, `@!`), so
+        // containers go through `term_doc` like everywhere else.
+        other => pretty::concat(vec![pretty::text("@"), term_doc(trivia, other)]),
     }
 }
 
